@@ -140,10 +140,34 @@ def select(ast, crate, mods=None, exclude_names=(), include_tests=False):
     return out
 
 
-def area_nf(ast, crate, mods, exclude_names=()):
+def select_consts(ast, crate, mods=None):
+    out = []
+    for it in ast.crates[crate]:
+        if it["k"] not in ("Static", "Const") or it.get("init") is None or it.get("name") in (None, "_"):
+            continue
+        if mods is not None and not any(it["mod"] == m or it["mod"].startswith(m + "::") or it["mod"].endswith("::" + m) or ("::" + m + "::") in ("::" + it["mod"] + "::") for m in mods):
+            continue
+        if it["mod"].endswith("::test") or it["mod"].endswith("::tests") or "::test::" in it["mod"]:
+            continue
+        out.append(it)
+    return out
+
+
+def area_nf(ast, crate, mods, exclude_names=(), skip_types=()):
     """-> {key: {'kind': 'paths'|'tree', ...}} JSON-able"""
+    from .render import render
     res = {}
+    for it in select_consts(ast, crate, mods):
+        key = "const %s::%s" % (it["mod"], it["name"])
+        if key in res:
+            continue
+        try:
+            res[key] = {"kind": "tree", "text": "%s = %s" % ((it.get("ty") or "").replace(" ", ""), render(it["init"])), "why": "constant"}
+        except Exception as e:  # noqa
+            res[key] = {"kind": "tree", "text": "unrenderable: %s" % e, "why": "constant"}
     for it in select(ast, crate, mods, exclude_names):
+        if skip_types and (it.get("self_ty") or "").replace(" ", "").split("<")[0] in skip_types:
+            continue
         key = fn_key(it)
         n = 2
         base = key
